@@ -316,3 +316,10 @@ def cdef(x, y=cmid(1)):
     """A call whose result depends on the context only through its subtree (cmid -> cleaf) sits in a DEFAULT ARGUMENT: it is
     evaluated in the called job's environment, under its context; the call itself looks the same under every context."""
     return y
+
+
+class PtSub(Pt):
+    """A subclass of a namedtuple (base class is the generated namedtuple, not tuple): still a namedtuple container."""
+
+    def total(self):
+        return self.x
